@@ -211,7 +211,7 @@ def search(ctx):
                     for j, nm in ((1, "perpendicular"), (0, "parallel")):
                         v = MieScatteringMatrix(parallel_or_perpendicular=nm, index_ratio=m.real, size_parameter=x)._eval(th)
                         ref = np.conj(S[:, j, j])
-                        if np.abs(v - ref).max() > 2e-6 * scale + 1e-5 * np.abs(ref).max():
+                        if not (np.abs(v - ref).max() <= 2e-6 * scale + 1e-5 * np.abs(ref).max()):
                             ctx.violation("C02:python-series-vs-mie", "pure-Python Mie series (%s) differs from the Lorenz-Mie solver (m=%r, x=%g, rel %.3g)" % (nm, m, x, np.abs(v - ref).max() / scale), info)
             elif k == 1:
                 # fields: Mie vs Multisphere on a one-sphere cluster, options matched, near and far
@@ -231,14 +231,14 @@ def search(ctx):
                 f2 = _flat_field(calc_field(det, Spheres([sc]), illum_polarization=pol,
                                             theory=Multisphere(compute_escat_radial=rad, eps=1e-10, qeps1=1e-9, qeps2=1e-12), **OPT))
                 dev = float(np.abs(f1 - f2).max() / max(1e-30, np.abs(f1).max()))
-                if dev > 5e-5:
+                if not (dev <= 5e-5):
                     ctx.violation("C02:mie-vs-multisphere", "Mie and Multisphere (one-sphere cluster) fields differ by %.3g (m=%r, x=%g, radial=%r)" % (dev, m, x, rad),
                                   dict(kind="fields", m=cx(m), x=x, z=z, radial=rad, pol=list(pol)))
                 # asymptotic vs full radial dependence agree far away
                 if far:
                     f3 = _flat_field(calc_field(det, sc, illum_polarization=pol, theory=Mie(False, False), **OPT))
                     f4 = _flat_field(calc_field(det, sc, illum_polarization=pol, theory=Mie(False, True), **OPT))
-                    if float(np.abs(f3 - f4).max() / np.abs(f3).max()) > 5.0 / (kwave * z):
+                    if not (float(np.abs(f3 - f4).max() / np.abs(f3).max()) <= 5.0 / (kwave * z)):
                         ctx.violation("C02:radial-dependence", "asymptotic and full radial dependence disagree in the far field", dict(kind="fields", m=cx(m), x=x, z=z))
             else:
                 # layered-sphere reductions through the public calculation
@@ -273,7 +273,7 @@ def search(ctx):
                 f1 = _flat_field(calc_field(det, lay, illum_polarization=pol, theory=Mie(), **OPT))
                 f2 = _flat_field(calc_field(det, ref, illum_polarization=pol, theory=Mie(), **OPT))
                 dev = float(np.abs(f1 - f2).max() / max(1e-30, np.abs(f2).max()))
-                if dev > 1e-7:
+                if not (dev <= 1e-7):
                     ctx.violation("C02:layered:%s" % which, "layered sphere (%s) scatters differently from the corresponding simpler sphere (rel %.3g)" % (which, dev),
                                   dict(kind="layered", which=which, layers=repr(lay), ref=repr(ref)))
         except Exception as ex:
